@@ -260,6 +260,35 @@ pub fn run_c20(a: &Args) {
                 if bits != want { bad.push(format!("threads={nt} round={round} item={i}: {bits:x} vs sequential {want:x}")); } } }
             Err(_) => bad.push(format!("threads={nt} round={round}: a thread panicked")) } }
     } }
+    // histories that contain failed (panicking, caught) evaluations: later results must not depend on them.
+    // integer data type whose division panics on a zero divisor, expressions below and above 64 operands
+    {
+        use exmex::{BinOp, MakeOperators, MatchLiteral, Operator};
+        #[derive(Clone, Debug)] struct IntOps;
+        impl MakeOperators<i64> for IntOps { fn make<'a>() -> Vec<Operator<'a, i64>> { vec![
+            Operator::make_bin("+", BinOp { apply: |a, b| a.wrapping_add(b), prio: 0, is_commutative: true }),
+            Operator::make_bin("*", BinOp { apply: |a, b| a.wrapping_mul(b), prio: 2, is_commutative: true }),
+            Operator::make_bin("/", BinOp { apply: |a, b| a / b, prio: 3, is_commutative: false }) ] } }
+        exmex::literal_matcher_from_pattern!(IntMatcher, r"^[0-9]+");
+        type IE = FlatEx<i64, IntOps, IntMatcher>;
+        for n in [5usize, 64, 65, 70, 130] {
+            let text = { let mut t = String::from("v000/v001"); for i in 2..n { t.push_str(&format!("+v{i:03}*2")); } t };
+            let e = Arc::new(IE::parse(&text).unwrap());
+            let good: Vec<i64> = (0..n as i64).map(|i| i + 1).collect();
+            let mut bad_vals = good.clone(); bad_vals[1] = 0;
+            let want = e.eval(&good).unwrap();
+            let handles: Vec<_> = (0..4).map(|_| { let (e, good, bad_vals) = (e.clone(), good.clone(), bad_vals.clone()); std::thread::spawn(move || {
+                let mut res = vec![];
+                for round in 0..3 {
+                    let e2 = e.clone(); let b2 = bad_vals.clone();
+                    let _ = std::panic::catch_unwind(std::panic::AssertUnwindSafe(move || e2.eval(&b2)));
+                    let e3 = e.clone(); let g2 = good.clone();
+                    res.push((round, std::panic::catch_unwind(std::panic::AssertUnwindSafe(move || e3.eval(&g2))).ok().and_then(|r| r.ok())));
+                }
+                res }) }).collect();
+            for h in handles { histories += 1; for (round, got) in h.join().unwrap() { if got != Some(want) { bad.push(format!("{n} operands: after a failed evaluation on the same thread (round {round}) the result is {got:?}, sequentially {want}")); } } }
+        }
+    }
     // evaluation never modifies the expression
     let f = FlatEx::<f64>::parse("x*2+y").unwrap(); let before = format!("{f:?}"); let _ = f.eval(&[1.0, 2.0]); let _ = f.eval(&[3.0, 4.0]);
     if format!("{f:?}") != before { bad.push("FlatEx changed by eval".into()) }
@@ -273,4 +302,17 @@ pub fn run_c20(a: &Args) {
         else { bad.iter().map(|b| format!("{{\"tb\": 0, \"family\": \"concurrent-histories\", \"note\": {}, \"prog\": {}, \"size\": 2, \"nontrivial\": true, \"oracle_ok\": false, \"oracle_note\": {}, \"answers\": []}}", json_str(b), json_str(b), json_str(b))).collect() };
     writeln!(f, "{}\n]}}", items.join(",\n")).unwrap();
     println!("mode=c20 thread_histories={histories} disagreements={}", bad.len());
+}
+
+/// regenerates coq/Gen/Tables.v from the implementation's own operator tables and derivative rule names
+pub fn dump_tables(path: &str) {
+    use crate::term::{float_table, val_table, g_table};
+    let rules = exmex::verif_hooks::verif_partial_rule_names();
+    let mut s = String::from("(* GENERATED on every run by `harness tables` from FloatOpsFactory::<f64>::make(), ValOpsFactory::<i32,f64>::make() and\n   make_partial_derivative_ops (hook verif_partial_rule_names).  Do not edit. *)\nFrom Exmex.Model Require Import Base.\n");
+    s.push_str(&format!("Definition float_table : optable :=\n {}.\n", g_table(&float_table())));
+    s.push_str(&format!("Definition val_table : optable :=\n {}.\n", g_table(&val_table())));
+    let items: Vec<String> = rules.iter().map(|(n, b, u)| format!("({}, {b}, {u})", g_str(n))).collect();
+    s.push_str(&format!("Definition partial_rule_names : list (str * bool * bool) :=\n [{}].\n", items.join(";\n  ")));
+    let old = std::fs::read_to_string(path).unwrap_or_default();
+    if old != s { std::fs::write(path, s).unwrap(); println!("tables: rewritten {path}"); } else { println!("tables: unchanged"); }
 }
